@@ -518,10 +518,12 @@ Record wf (w : st) : Prop := {
   wf_mempar : forall o g l d, In (g, l) (pgs (E w o)) -> In d l -> par (E w d) = o;
   wf_leaf : forall x, ekind (E w x) = KPG -> ch (E w x) = [];
   wf_bound : forall o g l, In (g, l) (pgs (E w o)) -> g < n w /\ forall d, In d l -> d < n w;
-  wf_datapar : forall p x, In x (ch (E w p)) -> ekind (E w x) = KData -> ekind (E w p) = KObject }.
+  wf_datapar : forall p x, In x (ch (E w p)) -> ekind (E w x) = KData -> ekind (E w p) = KObject;
+  wf_npos : 0 < n w;
+  wf_dleaf : forall x, ekind (E w x) = KData -> ch (E w x) = [] }.
 
 Arguments wf_par {w}. Arguments wf_ord {w}. Arguments wf_nodup {w}. Arguments wf_pgk {w}.
-Arguments wf_pgnd {w}. Arguments wf_memnd {w}. Arguments wf_mempar {w}. Arguments wf_leaf {w}. Arguments wf_bound {w}. Arguments wf_datapar {w}.
+Arguments wf_pgnd {w}. Arguments wf_memnd {w}. Arguments wf_mempar {w}. Arguments wf_leaf {w}. Arguments wf_bound {w}. Arguments wf_datapar {w}. Arguments wf_npos {w}. Arguments wf_dleaf {w}.
 
 Lemma wf_shrink w w' : shrink w w' -> wf w -> wf w'.
 Proof.
@@ -543,6 +545,9 @@ Proof.
     intros d Hd'. apply Hd. eapply sub_In; eassumption.
   - intros p x Hx Hk. rewrite (es_kind (sh_E Hs p)). rewrite (es_kind (sh_E Hs x)) in Hk.
     eapply (wf_datapar H); [|exact Hk]. eapply sub_In; [apply (es_ch (sh_E Hs p)) | exact Hx].
+  - rewrite (sh_n Hs). apply (wf_npos H).
+  - intros x Hk. rewrite (es_kind (sh_E Hs x)) in Hk. pose proof (es_ch (sh_E Hs x)) as S.
+    rewrite (wf_dleaf H x Hk) in S. inversion S. reflexivity.
 Qed.
 
 Lemma desc_ge w e x : wf w -> desc w e x -> e <= x.
@@ -737,6 +742,8 @@ Proof.
   - intros x. rewrite Ek, Ec. apply (wf_leaf H).
   - intros o g l. rewrite Eg, Hn. apply (wf_bound H).
   - intros p x. rewrite Ec, !Ek. apply (wf_datapar H).
+  - rewrite Hn. apply (wf_npos H).
+  - intros x. rewrite Ek, Ec. apply (wf_dleaf H).
 Qed.
 
 Lemma wf_init : wf init.
@@ -752,6 +759,8 @@ Proof.
   - intros x _. reflexivity.
   - intros o g l [].
   - intros p x [].
+  - lia.
+  - intros x _. reflexivity.
 Qed.
 
 Lemma NoDup_app_snoc {A} (l : list A) x : NoDup l -> ~ In x l -> NoDup (l ++ [x]).
@@ -764,7 +773,7 @@ Qed.
 
 (* a new entity x = n w under p; p's record gains the child (and possibly one new property group) *)
 Lemma wf_add w w' k p extra :
-  wf w -> p < n w -> ekind (E w p) <> KPG ->
+  wf w -> p < n w -> ekind (E w p) <> KPG -> ekind (E w p) <> KData ->
   n w' = S (n w) ->
   E w' (n w) = blank k p ->
   (forall z, z <> n w -> z <> p -> E w' z = E w z) ->
@@ -774,7 +783,7 @@ Lemma wf_add w w' k p extra :
   (extra = [] \/ exists l, extra = [(n w, l)] /\ k = KPG /\ NoDup l /\ forall d, In d l -> In d (ch (E w p))) ->
   wf w'.
 Proof.
-  intros H Hp Hkp Hn Hx Hoth Hk Hpar Hch Hpgs Hdata Hex.
+  intros H Hp Hkp Hkd Hn Hx Hoth Hk Hpar Hch Hpgs Hdata Hex.
   set (x := n w) in *.
   assert (Hxp : p <> x) by (unfold x; lia).
   assert (Kd : forall z, z <> x -> ekind (E w' z) = ekind (E w z)).
@@ -844,12 +853,16 @@ Proof.
     + rewrite Hx in Hkz. simpl in Hkz. rewrite Hk. apply Hdata. exact Hkz.
     + rewrite Kd in Hkz by (eapply Oldlt; exact Hz'). rewrite Kd by exact Hqx.
       eapply (wf_datapar H); eassumption.
+  - rewrite Hn. lia.
+  - intros z Hz. destruct (Nat.eq_dec z x) as [->|Hzx]; [exact Cx|].
+    rewrite Kd in Hz by exact Hzx. destruct (Nat.eq_dec z p) as [->|Hzp]; [contradiction|].
+    rewrite Co by assumption. apply (wf_dleaf H). exact Hz.
 Qed.
 
 Lemma wf_create w k p :
-  wf w -> p < n w -> ekind (E w p) <> KPG -> (k = KData -> ekind (E w p) = KObject) -> wf (create w k p).
+  wf w -> p < n w -> ekind (E w p) <> KPG -> ekind (E w p) <> KData -> (k = KData -> ekind (E w p) = KObject) -> wf (create w k p).
 Proof.
-  intros H Hp Hk Hd.
+  intros H Hp Hk Hkd Hd.
   assert (Hpx : Nat.eqb p (n w) = false) by (apply Nat.eqb_neq; lia).
   apply wf_add with (w := w) (k := k) (p := p) (extra := []); try assumption; simpl.
   - reflexivity.
@@ -911,6 +924,8 @@ Proof.
       destruct (Hmem d Hd) as [Hd'|Hd']; [apply Hb; exact Hd' | destruct (wf_ord H o d Hd'); lia].
     + apply (wf_bound H x h m Hi').
   - intros p x. rewrite Ec, !Ek. apply (wf_datapar H).
+  - apply (wf_npos H).
+  - intros x. rewrite Ek, Ec. apply (wf_dleaf H).
 Qed.
 
 Lemma attachedb_lt w x : attachedb w x = true -> x < n w.
@@ -927,21 +942,21 @@ Proof. intros Hn HE. apply wf_same_shape; [exact Hn|]. intros x. rewrite HE. rep
 
 Lemma step_wf c w a : wf w -> wf (fst (step c w a)).
 Proof.
-  intros H. destruct a as [p|p|o|o ds|g ds|e b|e|e| |k|e]; simpl.
+  intros H. destruct a as [p|p|o|o ds|g ds|e b|e|e| |k|e]; unfold step.
   - destruct (attachedb w p && kind_eqb (ekind (E w p)) KGroup) eqn:G; [|exact H]. simpl.
     apply andb_true_iff in G as [Ga Gk]. apply kind_eqb_eq in Gk.
-    apply wf_create; [exact H | apply attachedb_lt; exact Ga | congruence | discriminate].
+    apply wf_create; [exact H | apply attachedb_lt; exact Ga | congruence | congruence | discriminate].
   - destruct (attachedb w p && kind_eqb (ekind (E w p)) KGroup) eqn:G; [|exact H]. simpl.
     apply andb_true_iff in G as [Ga Gk]. apply kind_eqb_eq in Gk.
-    apply wf_create; [exact H | apply attachedb_lt; exact Ga | congruence | discriminate].
+    apply wf_create; [exact H | apply attachedb_lt; exact Ga | congruence | congruence | discriminate].
   - destruct (attachedb w o && kind_eqb (ekind (E w o)) KObject) eqn:G; [|exact H]. simpl.
     apply andb_true_iff in G as [Ga Gk]. apply kind_eqb_eq in Gk.
-    apply wf_create; [exact H | apply attachedb_lt; exact Ga | congruence | intros _; exact Gk].
+    apply wf_create; [exact H | apply attachedb_lt; exact Ga | congruence | congruence | intros _; exact Gk].
   - destruct (attachedb w o && kind_eqb (ekind (E w o)) KObject && negb (is_nil (add_props (ch (E w o)) (isdata w) [] ds))) eqn:G; [|exact H].
     simpl. apply andb_true_iff in G as [G _]. apply andb_true_iff in G as [Ga Gk]. apply kind_eqb_eq in Gk.
     pose proof (attachedb_lt w o Ga) as Hlt.
     assert (Hox : Nat.eqb o (n w) = false) by (apply Nat.eqb_neq; lia).
-    destruct (add_props_ok (ch (E w o)) (isdata w) ds (NoDup_nil nat)) as [Hnd Hmem].
+    destruct (add_props_ok (ch (E w o)) (isdata w) ds [] (NoDup_nil nat)) as [Hnd Hmem].
     eapply wf_add with (w := w) (k := KPG) (p := o) (extra := [(n w, add_props (ch (E w o)) (isdata w) [] ds)]);
       try exact H; try exact Hlt; try congruence; try rewrite E_write_fpg; try rewrite n_write_fpg; simpl.
     + reflexivity.
@@ -958,22 +973,22 @@ Proof.
     destruct (index_of_nth _ _ _ Ei) as [l0 Hl0]. rewrite Hl0. simpl.
     set (o := par (E w g)) in *.
     assert (Hnd0 : NoDup l0) by (eapply (wf_memnd H o g); eapply nth_error_In; exact Hl0).
-    destruct (add_props_ok (ch (E w o)) (isdata w) ds Hnd0) as [Hnd Hmem].
-    eapply wf_same_E; [apply n_write_fpg | apply E_write_fpg |].
+    destruct (add_props_ok (ch (E w o)) (isdata w) ds l0 Hnd0) as [Hnd Hmem].
+    match goal with |- wf (write_fpg ?w1 _ _) => apply wf_same_E with (w := w1) end; [apply n_write_fpg | apply E_write_fpg |].
     eapply wf_set_members; eassumption.
   - destruct (attachedb w e && negb (kind_eqb (ekind (E w e)) KPG) && negb (Nat.eqb e 0)); [|exact H]. simpl.
-    eapply wf_same_shape; [reflexivity | | exact H]. intros x. simpl. destruct (Nat.eqb x e); repeat split; reflexivity.
+    apply wf_same_shape with (w := w); [reflexivity | | exact H]. intros x. simpl. destruct (Nat.eqb x e); repeat split; reflexivity.
   - destruct (attachedb w e && negb (Nat.eqb e 0)); [|exact H].
-    destruct (remove_entity c (fuel_of w) w e) as [w' o] eqn:Hr. simpl.
+    destruct (remove_entity c (fuel_of w) w e) as [w' o] eqn:Hr. cbn [fst].
     destruct (remove_entity_fp c (fuel_of w) w e w' o (wf_par H) Hr) as [Hs _]. eapply wf_shrink; eassumption.
   - destruct (attachedb w e && negb (Nat.eqb e 0)); [|exact H]. simpl.
     eapply wf_shrink; [apply parent_remove_child_shrink | exact H].
-  - eapply wf_same_E; [| |exact H]; reflexivity.
+  - apply wf_same_E with (w := w); [reflexivity | reflexivity | exact H].
   - destruct k; simpl;
-      try (destruct (is_nil _); exact H);
-      (eapply wf_same_E; [| |exact H]; simpl; [apply (proj2 (E_fold_del_flat _ w)) | apply (proj1 (E_fold_del_flat _ w))]).
+      try (destruct (pg_list_ok c); [apply wf_same_E with (w := w); [reflexivity | reflexivity | exact H] | destruct (is_nil _); exact H]);
+      (apply wf_same_E with (w := w); [| |exact H]; simpl; [apply (proj2 (E_fold_del_flat _ w)) | apply (proj1 (E_fold_del_flat _ w))]).
   - destruct (Nat.ltb e (n w)); [|exact H]. destruct (memb e (reg w)); [|exact H].
-    destruct (memb e (held w)); [exact H|]. simpl. eapply wf_same_E; [| |exact H]; reflexivity.
+    destruct (memb e (held w)); [exact H|]. simpl. apply wf_same_E with (w := w); [reflexivity | reflexivity | exact H].
 Qed.
 
 Theorem run_wf c : forall h w, wf w -> wf (run c w h).
@@ -981,3 +996,32 @@ Proof. induction h as [|a r IH]; intros w H; simpl; [exact H|]. apply IH. apply 
 
 Corollary reachable_wf c h : wf (run c init h).
 Proof. apply run_wf. apply wf_init. Qed.
+
+(* ================= the executable attachment test agrees with reachability from the root ================= *)
+Lemma attached_f_att f : forall w x, attached_f f w x = true -> att w x.
+Proof.
+  induction f as [|f IH]; intros w x H; simpl in H; [discriminate|].
+  apply orb_true_iff in H as [H|H].
+  - apply Nat.eqb_eq in H. subst. constructor.
+  - apply andb_true_iff in H as [H1 H2]. apply memb_In in H1. eapply att_step; [apply IH; exact H2 | exact H1].
+Qed.
+
+Lemma att_attached_f w x : wf w -> att w x -> forall f, x < f -> attached_f f w x = true.
+Proof.
+  intros H. induction 1 as [|p x Hp IH Hx]; intros f Hf.
+  - destruct f; [lia|]. reflexivity.
+  - destruct f; [lia|]. simpl. apply orb_true_iff. right.
+    rewrite (wf_par H p x Hx). apply andb_true_iff. split; [apply memb_In; exact Hx|].
+    apply IH. destruct (wf_ord H p x Hx). lia.
+Qed.
+
+Lemma att_lt w x : wf w -> att w x -> x < n w.
+Proof. intros H [|p y _ Hy]; [apply (wf_npos H) | apply (wf_ord H p y Hy)]. Qed.
+
+Lemma attachedb_att w x : wf w -> (attachedb w x = true <-> att w x).
+Proof.
+  intros H. unfold attachedb. split.
+  - intros Hb. apply andb_true_iff in Hb as [_ Hb]. eapply attached_f_att. exact Hb.
+  - intros Ha. pose proof (att_lt w x H Ha). apply andb_true_iff. split; [apply Nat.ltb_lt; assumption|].
+    apply att_attached_f; [exact H | exact Ha | lia].
+Qed.
